@@ -346,6 +346,13 @@ pub struct Profile {
     pub offgrid_prices: Vec<u32>,
     /// cap on orders ever created in one history (keeps branching finite at depth)
     pub max_orders: usize,
+    /// volumes / prices / times of large magnitude: operations are filtered by the validity
+    /// clause of the properties (per-side resting volume and cumulative traded volume < 2^32)
+    pub magnitude: bool,
+    /// clock advance of the explicit set_time operation
+    pub set_time_dt: u64,
+    /// cancel / modify / place are offered for the most recent ids only (histories with hundreds of orders)
+    pub id_window: usize,
 }
 
 impl Profile {
@@ -372,7 +379,33 @@ impl Profile {
             reload_modes: vec![],
             offgrid_prices: vec![],
             max_orders: usize::MAX,
+            magnitude: false,
+            set_time_dt: 2,
+            id_window: usize::MAX,
         }
+    }
+
+    /// large numbers: times beyond 2^32, prices around 2^31, volumes beyond 2^16 and 2^31
+    pub fn magnitude(name: &str) -> Profile {
+        let mut p = Profile::core(name, 1, 10);
+        p.start_time = 1 << 40;
+        // prices straddling 2^31; 2147483647 and 2147483648 are complementary (p and 2^32-1-p)
+        p.prices = vec![2_147_483_646, 2_147_483_647, 2_147_483_648];
+        p.limit_vols = vec![1, 70_000, 2_000_000_000, 3_000_000_000];
+        p.market_vols = vec![3, 3_000_000_010];
+        p.magnitude = true;
+        p.reset_tv = true;
+        p.set_time_dt = 1 << 33;
+        p
+    }
+
+    /// does `step` keep the history inside the validity clause (per-side resting volume and
+    /// cumulative traded volume < 2^32)? Decided on the reference model, which counts in 64 bits.
+    fn valid_magnitude(m: &RefModel, step: &Step) -> bool {
+        let cap = u32::MAX as u64;
+        let mut m2 = m.clone();
+        apply_model(&mut m2, step);
+        m2.side_vol(true) <= cap && m2.side_vol(false) <= cap && m2.trade_vol <= cap
     }
 
     pub fn to_json(&self) -> serde_json::Value {
@@ -406,7 +439,8 @@ impl Profile {
             }
         }
         let routes: &[bool] = if self.events { &[false, true] } else { &[false] };
-        for id in 0..n {
+        let first_id = n.saturating_sub(self.id_window);
+        for id in first_id..n {
             for &ev in routes {
                 v.push(Op::Cancel { id, ev });
             }
@@ -421,7 +455,7 @@ impl Profile {
                     v.push(Op::Create { bid, price: None, vol: self.market_vols[self.market_vols.len() - 1] });
                 }
             }
-            for id in 0..n {
+            for id in first_id..n {
                 if m.orders[id].status == NEW || self.redundant_place {
                     for &ev in routes {
                         v.push(Op::Place { id, ev });
@@ -430,7 +464,7 @@ impl Profile {
             }
         }
         if self.modify {
-            for id in 0..n {
+            for id in first_id..n {
                 for &ev in routes {
                     let mut popts: Vec<Option<u32>> = vec![None];
                     if self.modify_prices {
@@ -455,7 +489,7 @@ impl Profile {
             v.push(if m.trading { Op::Enable } else { Op::Disable });
         }
         if self.set_time_op {
-            v.push(Op::SetTime { dt: 2 });
+            v.push(Op::SetTime { dt: self.set_time_dt });
         }
         if self.reset_tv {
             v.push(Op::ResetTv);
@@ -476,7 +510,10 @@ impl Profile {
 
     /// Steps (clock choice x operation) enabled in this state.
     pub fn steps(&self, m: &RefModel) -> Vec<Step> {
-        let ops = self.ops(m);
+        let mut ops = self.ops(m);
+        if self.magnitude {
+            ops.retain(|op| Self::valid_magnitude(m, &Step { dt: 1, op: op.clone() }));
+        }
         let mut out = Vec::with_capacity(ops.len() * 2);
         match self.dt {
             DtMode::One => {
